@@ -97,13 +97,24 @@ def search_continues(ctx, flow, reach):
 def counted_placed(ctx, flow, reach, copyfns):
     n = 0
     copy_names = {f.name for f in copyfns}
+    # the places where a file is counted: the callback itself, or - when the callback sits in a small reporting method that does
+    # nothing else of interest (no test, no copy) - the calls of that method
+    counting = []
     for fn in reach:
         if fn.module.name != "torrentfile.rebuild":
             continue
-        g = C.cfg_of(fn)
         for call in [x for x in own_nodes(fn.node) if isinstance(x, ast.Call)]:
-            if not (isinstance(call.func, ast.Attribute) and call.func.attr == "cb" and isinstance(call.func.value, ast.Name) and call.func.value.id == fn.self_name):
-                continue
+            if isinstance(call.func, ast.Attribute) and call.func.attr == "cb" and isinstance(call.func.value, ast.Name) and call.func.value.id == fn.self_name:
+                plain = not any(isinstance(x, (ast.If, ast.For, ast.While, ast.Try, ast.Return)) for x in own_nodes(fn.node)) and fn.name not in ("_match_v1", "_match_v2", "rebuild")
+                callers = [(c_, s_) for c_ in reach if c_.module.name == "torrentfile.rebuild" for s_ in own_nodes(c_.node)
+                           if isinstance(s_, ast.Call) and any(t is fn for t in C.targets_of(ctx, c_, s_))] if plain else []
+                if callers:
+                    counting.extend(callers)
+                else:
+                    counting.append((fn, call))
+    for fn, call in counting:
+        g = C.cfg_of(fn)
+        if True:
             n += 1
             cn = C.stmt_node(ctx, fn, call)
             # (a) a copy call dominates it in the same function
